@@ -47,6 +47,7 @@ type Exit struct {
 	label   string
 	st      *State
 	results []Value
+	pre     []Value // results as assigned by the return statement, before deferred functions ran
 	node    ast.Node
 }
 
@@ -104,6 +105,10 @@ type FnV struct {
 	decl     *ast.FuncDecl
 	fnobj    *types.Func
 	replay   *ReplayInfo
+	logKinds []string
+	returned []Value
+	nowriteOn bool
+	ownRefs  map[string]bool
 }
 
 type closureRec struct {
@@ -472,6 +477,9 @@ func (e *Engine) verifyFunc(fc *FuncContract) []*Oblig {
 		}
 		v.replay = ri
 	}
+	v.initLog(st)
+	v.checkNoEscape()
+	v.nowriteOn = v.isNoWrite()
 	v.entry = st.fork()
 	// preconditions
 	sc := &Scope{v: v, vars: scope, pkg: pkg, pos: decl.Body.Lbrace + 1}
@@ -602,6 +610,7 @@ func (v *FnV) checkPosts(ex Exit, sc *Scope, ord int) {
 		ob.SMT = v.script(st, val.S)
 		v.obligs = append(v.obligs, ob)
 	}
+	v.checkExits(ex, psc, ord)
 }
 
 // modifiedParams parses "modifies *a *b" lines.
@@ -668,6 +677,15 @@ func (v *FnV) scanBoxed(body ast.Node, info *types.Info) {
 						if _, isIdx := x.X.(*ast.IndexExpr); !isIdx {
 							v.boxed[obj] = true
 						}
+					}
+				}
+			}
+		case *ast.SliceExpr:
+			// slicing an array variable takes its address
+			if id, ok := unparen(x.X).(*ast.Ident); ok {
+				if obj, ok := info.Uses[id].(*types.Var); ok && !obj.IsField() && obj.Pkg() != nil && obj.Parent() != obj.Pkg().Scope() {
+					if _, isArr := obj.Type().Underlying().(*types.Array); isArr {
+						v.boxed[obj] = true
 					}
 				}
 			}
@@ -818,10 +836,21 @@ func (v *FnV) alloc(st *State, hint string) string {
 	st.declare(r, "Int")
 	st.assume(sGt(r, st.alloc))
 	st.alloc = r
+	if v.ownRefs == nil {
+		v.ownRefs = map[string]bool{}
+	}
+	v.ownRefs[r] = true
 	return r
 }
 
-func heapName(t types.Type) string     { return "H_" + mangle(typeKey(t)) }
+func heapName(t types.Type) string {
+	// a pointer to an array [N]T refers to the same kind of storage as the backing array
+	// of a []T (ref -> Array Int T), so that p[:] can be modelled as a slice sharing p's cells
+	if at, ok := types.Unalias(t).Underlying().(*types.Array); ok {
+		return elemHeapName(at.Elem())
+	}
+	return "H_" + mangle(typeKey(t))
+}
 func elemHeapName(t types.Type) string { return "E_" + mangle(typeKey(t)) }
 
 func (v *FnV) load(st *State, t types.Type, ref string) string {
@@ -834,6 +863,7 @@ func (v *FnV) load(st *State, t types.Type, ref string) string {
 func (v *FnV) store(st *State, t types.Type, ref string, val string) {
 	name := heapName(t)
 	h := st.heap(name, "(Array Int "+v.c.sortOf(t)+")")
+	v.writeCheck(st, ref, "store through a pointer")
 	st.setHeap(name, sStore(h, ref, val))
 }
 
@@ -853,6 +883,7 @@ func (v *FnV) sliceLoad(st *State, elem types.Type, sl string, idx string) strin
 func (v *FnV) sliceStore(st *State, elem types.Type, sl string, idx string, val string) {
 	name, h := v.elemHeap(st, elem)
 	ref := sx("sref", sl)
+	v.writeCheck(st, ref, "slice element store")
 	st.setHeap(name, sStore(h, ref, sStore(sSelect(h, ref), sAdd(sx("sloff", sl), idx), val)))
 }
 
@@ -1314,6 +1345,7 @@ func (v *FnV) ret(st *State, x *ast.ReturnStmt) Flow {
 			v.setVar(st, r, ex.results[i])
 		}
 	}
+	ex.pre = append([]Value(nil), ex.results...)
 	v.runDefers(&ex, fr)
 	return Flow{exits: []Exit{ex}}
 }
@@ -1321,6 +1353,12 @@ func (v *FnV) ret(st *State, x *ast.ReturnStmt) Flow {
 func (v *FnV) runDefers(ex *Exit, fr *Frame) {
 	st := ex.st
 	ran := false
+	if len(v.frames) == 1 {
+		// deferred literals of the function under verification may mention `returned` in their loop invariants
+		saved := v.returned
+		v.returned = ex.pre
+		defer func() { v.returned = saved }()
+	}
 	for len(st.defers) > fr.defers {
 		d := st.defers[len(st.defers)-1]
 		st.defers = st.defers[:len(st.defers)-1]
@@ -1634,7 +1672,15 @@ func (v *FnV) frameContract() *FuncContract {
 	if len(v.frames) == 1 {
 		return v.fc
 	}
-	return v.e.cs.Funcs[v.fr().name]
+	// closures and deferred literals share the contract (and loop ordinals) of their declaration
+	name := v.fr().name
+	for strings.HasSuffix(name, "$lit") {
+		name = strings.TrimSuffix(name, "$lit")
+	}
+	if name == v.frames[0].name {
+		return v.fc
+	}
+	return v.e.cs.Funcs[name]
 }
 
 func (v *FnV) loopClauses(ord int) loopSpec {
@@ -1740,6 +1786,9 @@ func (v *FnV) loopCore(st *State, node ast.Stmt, label string, modified []ast.No
 		if !v.loopPure(modified) {
 			st.havocAllHeaps()
 		}
+	}
+	if calls && st.ghost != nil && v.loopMayLog(modified) {
+		v.havocLog(st)
 	}
 	assumeInvs(st)
 	base := len(st.items)
